@@ -127,6 +127,26 @@ class C08:
                 return res
             # does load_module accept a file with this magic?
             data = mg.int2magic(magic) + b"\0" * 60
+            # a file's name never changes which Python version its magic number stands for
+            base = None
+            for fname in ("m%d.pyc" % magic, "m.cpython-39.pyc", "m.pypy38.pyc", "m.pypy39.pyc", "m.pypy310.pyc", "m.pypy-73.pyc"):
+                try:
+                    t_ = x.load.load_module_from_file_object(io.BytesIO(data), filename=fname, get_code=False)
+                    o_ = x.disasm.get_opcode(t_[0], t_[4])
+                    cur = (tuple(t_[0][:2]), tuple(o_.version_tuple[:2]))
+                except ImportError:
+                    cur = "ImportError"
+                except Exception as e:
+                    cur = "raised " + type(e).__name__
+                    if magic == 62135:
+                        cur = "dropbox"
+                res.evals += 1
+                if base is None:
+                    base = cur
+                elif cur != base or (isinstance(cur, tuple) and cur[0] != cur[1]):
+                    res.fail("C08|version-depends-on-file-name", "magic %d: named m%d.pyc -> %s, named %s -> %s (version, opcode table version)" % (
+                        magic, magic, base, fname, cur))
+                    break
             try:
                 tup = x.load.load_module_from_file_object(io.BytesIO(data), filename="m%d.pyc" % magic, get_code=False)
             except ImportError:
@@ -186,6 +206,19 @@ class C08:
             if mg.magic2int(got) != exp:
                 res.fail("C08|release-magic|%d.%d" % (major, minor),
                          "Python %s writes magic %d (CPython registry); sysinfo2magic gives %d" % (name, exp, mg.magic2int(got)))
+            # the bytecode magic is frozen before the first release candidate: X.Y.Zrc<n> writes what X.Y.Z final writes
+            for serial in (1, 2, 3):
+                vi = (major, minor, patch, "candidate", serial)
+                try:
+                    got = mg.magic2int(mg.sysinfo2magic(vi))
+                except Exception as e:
+                    res.fail("C08|sysinfo2magic-raised|candidate", "sysinfo2magic(%r) raised %s: %s" % (vi, type(e).__name__, e))
+                    break
+                res.evals += 1
+                if got != exp:
+                    res.fail("C08|release-magic|candidate", "Python %src%d writes magic %d like %s final (CPython registry); "
+                             "sysinfo2magic(%r) gives %d" % (name, serial, exp, name, vi, got))
+                    break
         elif t == "interp":
             v = case["v"]
             info = ctx.pool.ref(v).call("magic")
